@@ -10,6 +10,9 @@
 //	lgo   <kv> <coord|E<code>> <T|O<top>:<p>=<code>,…> ListConsumerGroupOffsets
 //	dld   <ids> <b=T|b=O;…>                            DescribeLogDirs
 //
+// A trailing token `b0` runs the line on a cluster whose broker ids are 0,1,2 instead of 1,2,3 (the model
+// ignores the token: it speaks about abstract ids).
+//
 // <flags> = which variant of admin.go the tree under test shows (probed at start): budget a|o|p, then
 // reassignRetries, reassignTopNonzero, reassignChecksItems as 0|1.
 // The answer is the canonical result + the mock brokers' request log. The oracle evaluates the property
@@ -1139,11 +1142,33 @@ func doDLD(cl *sarama.VerifCluster, line string, t []string) string {
 
 // ---------------------------------------------------------------------------------------------------
 
-func execLine(cl *sarama.VerifCluster, line string) (string, string) {
-	t := strings.Fields(line)
+// clusters of one worker: broker ids 1,2,3 and 0,1,2
+type clusters struct{ one, zero *sarama.VerifCluster }
+
+func newClusters() *clusters {
+	return &clusters{one: sarama.NewVerifClusterBase(3, 1), zero: sarama.NewVerifClusterBase(3, 0)}
+}
+
+func (c *clusters) Close() { c.one.Close(); c.zero.Close() }
+
+func execLine(cls *clusters, line string) (string, string) {
+	full := strings.Fields(line)
+	if len(full) == 0 {
+		return line, "bad-op"
+	}
+	cl := cls.one
+	t := full
+	suffix := ""
+	if full[len(full)-1] == "b0" {
+		cl = cls.zero
+		t = full[:len(full)-1]
+		suffix = " b0"
+	}
 	if len(t) == 0 {
 		return line, "bad-op"
 	}
+	line = strings.Join(t, " ")
+
 	if t[0] == "ctrl" && len(t) == 7 {
 		t[1] = flags // the variant is what THIS tree shows, whatever a replayed line says
 		line = strings.Join(t, " ")
@@ -1152,6 +1177,7 @@ func execLine(cl *sarama.VerifCluster, line string) (string, string) {
 		t[1] = flags[:1]
 		line = strings.Join(t, " ")
 	}
+	line += suffix // oracle failures and the emitted op line carry the cluster marker
 	out := run.Safe(line, func() string {
 		switch {
 		case t[0] == "retry" && len(t) == 4:
@@ -1557,6 +1583,69 @@ func genDLD(r *hlib.Rand) string {
 	return fmt.Sprintf("dld %s %s", strings.Join(ids, ","), strings.Join(rs, ";"))
 }
 
+// zeroBased rewrites a generated line (broker ids 1..3) to broker ids 0..2 and marks it `b0`.
+func zeroBased(line string) string {
+	t := strings.Fields(line)
+	dec := func(s string) string { return strconv.Itoa(atoi(s) - 1) }
+	decList := func(s string) string {
+		xs := splitList(s, ",")
+		for i := range xs {
+			xs[i] = dec(xs[i])
+		}
+		if len(xs) == 0 {
+			return s
+		}
+		return strings.Join(xs, ",")
+	}
+	decLookups := func(s string) string { // item=broker | item=E<code>
+		xs := splitList(s, ",")
+		for i, x := range xs {
+			ab := strings.SplitN(x, "=", 2)
+			if len(ab) == 2 && !strings.HasPrefix(ab[1], "E") {
+				xs[i] = ab[0] + "=" + dec(ab[1])
+			}
+		}
+		if len(xs) == 0 {
+			return s
+		}
+		return strings.Join(xs, ",")
+	}
+	decKeys := func(s string) string { // broker=payload;…
+		xs := splitList(s, ";")
+		for i, x := range xs {
+			ab := strings.SplitN(x, "=", 2)
+			if len(ab) == 2 {
+				xs[i] = dec(ab[0]) + "=" + ab[1]
+			}
+		}
+		if len(xs) == 0 {
+			return s
+		}
+		return strings.Join(xs, ";")
+	}
+	decOne := func(s string) string {
+		if strings.HasPrefix(s, "E") {
+			return s
+		}
+		return dec(s)
+	}
+	switch {
+	case t[0] == "ctrl" && len(t) == 7:
+		t[5] = decList(t[5])
+	case t[0] == "dr" && len(t) == 5:
+		t[2], t[3], t[4] = decList(t[2]), decLookups(t[3]), decKeys(t[4])
+	case t[0] == "dg" && len(t) == 4:
+		t[1], t[2], t[3] = decList(t[1]), decLookups(t[2]), decKeys(t[3])
+	case (t[0] == "delg" || t[0] == "lgo") && len(t) == 4:
+		t[2] = decOne(t[2])
+	case t[0] == "dld" && len(t) == 3:
+		t[1], t[2] = decList(t[1]), decKeys(t[2])
+	default:
+		return line
+	}
+	return strings.Join(t, " ") + " b0"
+}
+
 func main() {
 	run = hlib.Start("C19")
 	r := hlib.NewRand(run.Seed)
@@ -1625,6 +1714,32 @@ func main() {
 		}
 	}
 
+	// scenarios on a cluster whose broker ids start at 0 (a zero id is what an unset int32 looks like: a lookup that
+	// was never made must not resolve to broker 0). Drawn from a SEPARATE PRNG and appended, so the streams above
+	// are what they always were.
+	if run.ReplayLines() == nil {
+		r0 := hlib.NewRand(run.Seed*0x9E37 + 0xC19B0)
+		n0 := len(lines) / 4
+		for i := 0; i < n0; i++ {
+			var l string
+			switch x := r0.Intn(20); {
+			case x < 4:
+				l = genCtrlRandom(r0)
+			case x < 8:
+				l = genDR(r0)
+			case x < 12:
+				l = genDG(r0)
+			case x < 15:
+				l = genDelG(r0)
+			case x < 18:
+				l = genLGO(r0)
+			default:
+				l = genDLD(r0)
+			}
+			lines = append(lines, zeroBased(l))
+		}
+	}
+
 	// execute on a few clusters in parallel, emit in generation order
 	workers := 6
 	if len(lines) < 50 {
@@ -1642,7 +1757,7 @@ func main() {
 		wg.Add(1)
 		go func() {
 			defer wg.Done()
-			cl := sarama.NewVerifCluster(3)
+			cl := newClusters()
 			defer func() { cl.Close() }()
 			done := 0
 			for i := range idx {
@@ -1652,7 +1767,7 @@ func main() {
 					// fresh listeners: every case opens a few TCP connections, and closed ones keep their
 					// (local port, listener) pair busy for a minute
 					cl.Close()
-					cl = sarama.NewVerifCluster(3)
+					cl = newClusters()
 				}
 			}
 		}()
